@@ -11,6 +11,7 @@
 -/
 import WaveletsVerif.Lemmas.Basic
 import WaveletsVerif.Model.Dtcwt
+import WaveletsVerif.Properties.C03
 namespace WV.C11
 open Finset WV
 variable {R : Type} [CommRing R]
@@ -40,6 +41,208 @@ theorem interleave4_get (a b c d : List R) (t : Nat) (ht : t < a.length) :
     have h2 : (4*t+3) % 4 = 3 := by omega
     have h3 : (4*t+3) / 4 = t := by omega
     simp [h1, h2, h3]
+
+/-! ### `colifilt` = the reference's four poly-phase branches -/
+
+omit [CommRing R] in
+theorem pyBound_neg (n k : Nat) (hk : k ≤ n) (hk0 : 0 < k) : pyBound n (-(k:Int)) = n - k := by
+  unfold pyBound
+  have h1 : (-(k:Int)) < 0 := by omega
+  simp only [h1, if_true]
+  have h2 : ¬ (-(k:Int) + n < 0) := by omega
+  have h3 : ¬ ((n:Int) < -(k:Int) + n) := by omega
+  simp only [h2, h3, if_false]
+  omega
+
+/-- every second sample starting at `st`, `cnt` of them -/
+def everyOther (x : List R) (st cnt : Nat) : List R := tab cnt fun i => getN x (st + 2*i)
+
+theorem slice2_everyOther (x : List R) (a : Nat) (k : Nat) (ha : a ≤ x.length) (hk : k ≤ x.length) (hk0 : 0 < k) :
+    slice2 x (a:Int) (-(k:Int)) = everyOther x a ((x.length - k - a + 1) / 2) := by
+  unfold slice2 everyOther
+  rw [C03.pyBound_nat _ _ ha, pyBound_neg _ _ hk hk0]
+
+theorem slice2From_everyOther (x : List R) (a : Nat) (ha : a ≤ x.length) :
+    slice2From x (a:Int) = everyOther x a ((x.length - a + 1) / 2) := by
+  rw [C03.slice2From_eq x a ha]; rfl
+
+/-- taps of the poly-phase split of the reversed buffer: `prep_filt(h)[off::2][j] = h[m−1−off−2j]` -/
+theorem taps_get (h : List R) (off j : Nat) (hoff : off ≤ 1) (hm : h.length % 2 = 0) (hj : j < h.length / 2) :
+    getN (slice2From h.reverse (off:Int)) j = getN h (h.length - 1 - off - 2*j) := by
+  rw [C03.slice2From_eq _ _ (by simp; omega)]
+  rw [getN_tab]
+  have : j < (h.reverse.length - off + 1) / 2 := by simp; omega
+  simp only [this, if_true]
+  have := getN_reverse h (h.length - 1 - (off + 2*j)) (by omega)
+  have h2 : h.length - 1 - (h.length - 1 - (off + 2*j)) = off + 2*j := by omega
+  rw [h2] at this
+  rw [this]; congr 1; omega
+
+theorem taps_length (h : List R) (off : Nat) (hoff : off ≤ 1) (hm : h.length % 2 = 0) (hm2 : 2 ≤ h.length) :
+    (slice2From h.reverse (off:Int)).length = h.length / 2 := by
+  rw [C03.slice2From_eq _ _ (by simp; omega)]; simp; omega
+
+/-- one poly-phase branch: stride-1 correlation of `m/2` taps with every second extended sample from `st` -/
+theorem branch_get (h x : List R) (off st v : Nat) (hoff : off ≤ 1) (hst : st ≤ 3) (hm : h.length % 2 = 0)
+    (hm2 : 2 ≤ h.length) (hr : x.length % 2 = 0) (hr0 : 0 < x.length) (hv : v < x.length / 2) :
+    getN (corr (slice2From h.reverse (off:Int)) (everyOther (symmPad x (h.length/2)) st (x.length/2 + h.length/2 - 1)) 1 1) v
+      = ∑ j ∈ range (h.length/2), getN h (h.length - 1 - off - 2*j) * Spec.xt x (2*((v:Int) + j) + st - ((h.length/2 : Nat):Int)) := by
+  have hl := taps_length h off hoff hm hm2
+  rw [getN_corr1 _ _ 1 v (by rw [hl]; simp [everyOther, corrLen]; split <;> omega), hl]
+  apply Finset.sum_congr rfl; intro j hj
+  have hj' : j < h.length / 2 := by simpa using hj
+  rw [taps_get h off j hoff hm hj', ← getN_eq_getZ]
+  unfold everyOther
+  rw [getN_tab]
+  have hlt : v + 1 * j < x.length / 2 + h.length / 2 - 1 := by omega
+  simp only [hlt, if_true]
+  rw [C03.getN_symmPad _ _ _ (by omega)]
+  congr 2
+  push_cast; ring
+
+/-- the spec's branch, in the form `branch_get` produces -/
+theorem spec_branch (h x : List R) (off st v : Nat) (phase : Int) (hp : phase = st) (hm2 : 2 ≤ h.length) (hoff : off ≤ 1) :
+    (sumN (h.length/2) fun j => getN h (h.length - (1 + off) - 2*j) * Spec.xt x (2*((v:Int) + j) + phase - ((h.length/2 : Nat):Int)))
+      = ∑ j ∈ range (h.length/2), getN h (h.length - 1 - off - 2*j) * Spec.xt x (2*((v:Int) + j) + st - ((h.length/2 : Nat):Int)) := by
+  rw [sumN_eq, hp]
+  apply Finset.sum_congr rfl; intro j _
+  have : h.length - (1 + off) - 2*j = h.length - 1 - off - 2*j := by omega
+  rw [this]
+
+/-- `colifilt(X, prep_filt(ha), prep_filt(hb), highpass)` is the reference's interpolating filter: the four
+poly-phase branches with the reference's tap and phase assignment for both parities of `m/2` and both
+`highpass` flags — every even column length, every even filter length. -/
+theorem colifilt1_eq_ref (ha hb x : List R) (hp : Bool) (hr : x.length % 2 = 0) (hr0 : 0 < x.length)
+    (hm : ha.length % 2 = 0) (hm2 : 2 ≤ ha.length) (hab : hb.length = ha.length) :
+    colifilt1 (prepFilt ha) (prepFilt hb) hp x = some (Spec.colifilt ha hb hp x) := by
+  have hg : ¬ (x.length % 2 ≠ 0 ∨ x.length = 0) := by omega
+  have hbm : hb.length % 2 = 0 := by omega
+  have hbm2 : 2 ≤ hb.length := by omega
+  have hxe : (symmPad x (ha.length/2)).length = ha.length/2 + x.length + ha.length/2 := by simp [symmPad]
+  unfold colifilt1 prepFilt Spec.colifilt
+  rw [if_neg hg]
+  simp only [List.length_reverse]
+  -- the five slices that occur, as "every other sample"
+  have s0 : slice2 (symmPad x (ha.length/2)) 0 (-2) = everyOther (symmPad x (ha.length/2)) 0 (x.length/2 + ha.length/2 - 1) := by
+    have := slice2_everyOther (symmPad x (ha.length/2)) 0 2 (by omega) (by rw [hxe]; omega) (by omega)
+    simp only [Nat.cast_zero, Nat.cast_ofNat] at this
+    rw [this, hxe]; congr 1; omega
+  have s1 : slice2 (symmPad x (ha.length/2)) 1 (-2) = everyOther (symmPad x (ha.length/2)) 1 (x.length/2 + ha.length/2 - 1) := by
+    have := slice2_everyOther (symmPad x (ha.length/2)) 1 2 (by rw [hxe]; omega) (by rw [hxe]; omega) (by omega)
+    simp only [Nat.cast_one, Nat.cast_ofNat] at this
+    rw [this, hxe]; congr 1; omega
+  have s2 : slice2From (symmPad x (ha.length/2)) 2 = everyOther (symmPad x (ha.length/2)) 2 (x.length/2 + ha.length/2 - 1) := by
+    have := slice2From_everyOther (symmPad x (ha.length/2)) 2 (by rw [hxe]; omega)
+    simp only [Nat.cast_ofNat] at this
+    rw [this, hxe]; congr 1; omega
+  have s3 : slice2From (symmPad x (ha.length/2)) 3 = everyOther (symmPad x (ha.length/2)) 3 (x.length/2 + ha.length/2 - 1) := by
+    have := slice2From_everyOther (symmPad x (ha.length/2)) 3 (by rw [hxe]; omega)
+    simp only [Nat.cast_ofNat] at this
+    rw [this, hxe]; congr 1; omega
+  have t1 : slice2 (symmPad x (ha.length/2)) 1 (-1) = everyOther (symmPad x (ha.length/2)) 1 (x.length/2 + ha.length/2 - 1) := by
+    have := slice2_everyOther (symmPad x (ha.length/2)) 1 1 (by rw [hxe]; omega) (by rw [hxe]; omega) (by omega)
+    simp only [Nat.cast_one] at this
+    rw [this, hxe]; congr 1; omega
+  have t2 : slice2 (symmPad x (ha.length/2)) 2 (-1) = everyOther (symmPad x (ha.length/2)) 2 (x.length/2 + ha.length/2 - 1) := by
+    have := slice2_everyOther (symmPad x (ha.length/2)) 2 1 (by rw [hxe]; omega) (by rw [hxe]; omega) (by omega)
+    simp only [Nat.cast_ofNat, Nat.cast_one] at this
+    rw [this, hxe]; congr 1; omega
+  have e0 : slice2From ha.reverse 0 = slice2From ha.reverse ((0:Nat):Int) := by simp
+  have e1 : slice2From ha.reverse 1 = slice2From ha.reverse ((1:Nat):Int) := by simp
+  have f0 : slice2From hb.reverse 0 = slice2From hb.reverse ((0:Nat):Int) := by simp
+  have f1 : slice2From hb.reverse 1 = slice2From hb.reverse ((1:Nat):Int) := by simp
+  have blen : ∀ (h : List R) (off st : Nat), off ≤ 1 → h.length = ha.length →
+      (corr (slice2From h.reverse (off:Int)) (everyOther (symmPad x (ha.length/2)) st (x.length/2 + ha.length/2 - 1)) 1 1).length
+        = x.length / 2 := by
+    intro h off st hoff hh
+    rw [corr_length, taps_length h off hoff (by omega) (by omega)]
+    simp [everyOther, corrLen, hh]; split <;> omega
+  have bg := fun (h : List R) (hh : h.length = ha.length) (off st v : Nat) (hoff : off ≤ 1) (hst : st ≤ 3) (hv : v < x.length/2) =>
+    (show getN (corr (slice2From h.reverse (off:Int)) (everyOther (symmPad x (ha.length/2)) st (x.length/2 + ha.length/2 - 1)) 1 1) v
+        = ∑ j ∈ range (ha.length/2), getN h (ha.length - 1 - off - 2*j) * Spec.xt x (2*((v:Int) + j) + st - ((ha.length/2 : Nat):Int)) from by
+      have := branch_get h x off st v hoff hst (by omega) (by omega) hr hr0 hv
+      rw [hh] at this; exact this)
+  by_cases hpar : ha.length / 2 % 2 = 0
+  · simp only [hpar, if_true]
+    cases hp
+    · simp only [Bool.false_eq_true, if_false, s0, s1, s2, s3, e0, e1, f0, f1]
+      refine congrArg some ?_
+      unfold interleave4
+      rw [blen ha 0 0 (by omega) rfl]
+      apply tab_ext (by omega)
+      intro i hi
+      have hv : i / 4 < x.length / 2 := by omega
+      have hmod : i % 4 = 0 ∨ i % 4 = 1 ∨ i % 4 = 2 ∨ i % 4 = 3 := by omega
+      rcases hmod with h | h | h | h <;> simp only [h]
+      · rw [bg ha rfl 0 0 _ (by omega) (by omega) hv]
+        exact (spec_branch ha x 0 0 _ 0 (by simp) hm2 (by omega)).symm
+      · rw [bg hb hab 0 1 _ (by omega) (by omega) hv]
+        have := spec_branch hb x 0 1 (i/4) 1 (by simp) hbm2 (by omega)
+        rw [hab] at this; exact this.symm
+      · rw [bg ha rfl 1 2 _ (by omega) (by omega) hv]
+        exact (spec_branch ha x 1 2 _ 2 (by simp) hm2 (by omega)).symm
+      · rw [bg hb hab 1 3 _ (by omega) (by omega) hv]
+        have := spec_branch hb x 1 3 (i/4) 3 (by simp) hbm2 (by omega)
+        rw [hab] at this; exact this.symm
+    · simp only [if_true, s0, s1, s2, s3, e0, e1, f0, f1]
+      refine congrArg some ?_
+      unfold interleave4
+      rw [blen ha 0 1 (by omega) rfl]
+      apply tab_ext (by omega)
+      intro i hi
+      have hv : i / 4 < x.length / 2 := by omega
+      have hmod : i % 4 = 0 ∨ i % 4 = 1 ∨ i % 4 = 2 ∨ i % 4 = 3 := by omega
+      rcases hmod with h | h | h | h <;> simp only [h]
+      · rw [bg ha rfl 0 1 _ (by omega) (by omega) hv]
+        exact (spec_branch ha x 0 1 _ 1 (by simp) hm2 (by omega)).symm
+      · rw [bg hb hab 0 0 _ (by omega) (by omega) hv]
+        have := spec_branch hb x 0 0 (i/4) 0 (by simp) hbm2 (by omega)
+        rw [hab] at this; exact this.symm
+      · rw [bg ha rfl 1 3 _ (by omega) (by omega) hv]
+        exact (spec_branch ha x 1 3 _ 3 (by simp) hm2 (by omega)).symm
+      · rw [bg hb hab 1 2 _ (by omega) (by omega) hv]
+        have := spec_branch hb x 1 2 (i/4) 2 (by simp) hbm2 (by omega)
+        rw [hab] at this; exact this.symm
+  · simp only [hpar, if_false]
+    cases hp
+    · simp only [Bool.false_eq_true, if_false, t1, t2, e0, e1, f0, f1]
+      refine congrArg some ?_
+      unfold interleave4
+      rw [blen ha 1 1 (by omega) rfl]
+      apply tab_ext (by omega)
+      intro i hi
+      have hv : i / 4 < x.length / 2 := by omega
+      have hmod : i % 4 = 0 ∨ i % 4 = 1 ∨ i % 4 = 2 ∨ i % 4 = 3 := by omega
+      rcases hmod with h | h | h | h <;> simp only [h]
+      · rw [bg ha rfl 1 1 _ (by omega) (by omega) hv]
+        exact (spec_branch ha x 1 1 _ 1 (by simp) hm2 (by omega)).symm
+      · rw [bg hb hab 1 2 _ (by omega) (by omega) hv]
+        have := spec_branch hb x 1 2 (i/4) 2 (by simp) hbm2 (by omega)
+        rw [hab] at this; exact this.symm
+      · rw [bg ha rfl 0 1 _ (by omega) (by omega) hv]
+        exact (spec_branch ha x 0 1 _ 1 (by simp) hm2 (by omega)).symm
+      · rw [bg hb hab 0 2 _ (by omega) (by omega) hv]
+        have := spec_branch hb x 0 2 (i/4) 2 (by simp) hbm2 (by omega)
+        rw [hab] at this; exact this.symm
+    · simp only [if_true, t1, t2, e0, e1, f0, f1]
+      refine congrArg some ?_
+      unfold interleave4
+      rw [blen ha 1 2 (by omega) rfl]
+      apply tab_ext (by omega)
+      intro i hi
+      have hv : i / 4 < x.length / 2 := by omega
+      have hmod : i % 4 = 0 ∨ i % 4 = 1 ∨ i % 4 = 2 ∨ i % 4 = 3 := by omega
+      rcases hmod with h | h | h | h <;> simp only [h]
+      · rw [bg ha rfl 1 2 _ (by omega) (by omega) hv]
+        exact (spec_branch ha x 1 2 _ 2 (by simp) hm2 (by omega)).symm
+      · rw [bg hb hab 1 1 _ (by omega) (by omega) hv]
+        have := spec_branch hb x 1 1 (i/4) 1 (by simp) hbm2 (by omega)
+        rw [hab] at this; exact this.symm
+      · rw [bg ha rfl 0 2 _ (by omega) (by omega) hv]
+        exact (spec_branch ha x 0 2 _ 2 (by simp) hm2 (by omega)).symm
+      · rw [bg hb hab 0 1 _ (by omega) (by omega) hv]
+        have := spec_branch hb x 0 1 (i/4) 1 (by simp) hbm2 (by omega)
+        rw [hab] at this; exact this.symm
 
 theorem colifilt1_raises_iff (ha hb x : List R) (hp : Bool) :
     colifilt1 ha hb hp x = none ↔ (x.length % 2 ≠ 0 ∨ x.length = 0) := by
